@@ -1,28 +1,29 @@
 """`timeseries/_resampling.py` -> Lean definitions used by the resampler models (C07, C08).
 
-Pure `ast`.  `datetime`/`timedelta` become `Int` microseconds, `x.total_seconds()` becomes the exact rational
-`x / 1_000_000`, `float` configuration values become `Rat`, `timedelta * float` becomes `tdMulFloat` (exact product
-rounded half-to-even to a microsecond, which is what CPython does).  Translated:
+Pure `ast`.  The pure parts of the anchored functions are *symbolically executed*: every local is replaced by what it
+was computed from (so names, aliases like `conf = self._config`, hoisted locals and the order of independent
+statements do not matter), `if`/`else`, early returns, guard clauses, conditional expressions and `not` all become
+`if … then … else` terms, `x is None` tests on Optional values become `match`.  What comes out is the VALUE the code
+computes at a given point, as a Lean term over the inputs:
 
-* module constants `DEFAULT_BUFFER_LEN_*`, the defaults of `ResamplerConfig`;
-* `Resampler._calculate_window_end`                     -> `calculateWindowEnd now period align_to`
-* the timer alignment hack of `Resampler.__init__`      -> `firstTickTime loopNow period startDelay`
-* `self._window_end += …` of `Resampler.resample`       -> `advanceWindowEnd windowEnd period`
-* whether `resample()` still reads `self._resamplers` after the gather (live dict) or only a snapshot taken before it
-                                                        -> `gatherOverSnapshot : Bool`
-* the guard of `_ResamplingHelper._update_source_sample_period` -> `skipPeriodUpdate …`
-* the `math.ceil(…)` formula of `_update_buffer_len`    -> `rawBufferLen …`
-* `period = max(…) if … else …`, `minimum_relevant_timestamp = …` and the two `bisect` calls of
-  `_ResamplingHelper.resample`                          -> `relevancePeriod`, `minimumRelevantTimestamp`, `minIndexKey`/`maxIndexKey`
-* the filter of `_StreamingHelper._receive_samples`     -> `acceptsSample isNone isNaN isInf`
-* whether `_window_end` is advanced before `ResamplingError` is raised -> `advanceOnError : Bool`
+* `Resampler._calculate_window_end`            -> `calculateWindowEnd now period align_to`  (the returned pair)
+* `Resampler.__init__`                         -> `firstTickTime loopNow period startDelay` (value stored in `_timer._next_tick_time`)
+* `Resampler.resample`                         -> `advanceWindowEnd`, `gatherOverSnapshot`, `advanceOnError`
+* `_ResamplingHelper._update_source_sample_period` -> `skipPeriodUpdate …` (path condition of `return False`), `minInputPeriodEstimate`
+* `_ResamplingHelper._update_buffer_len`       -> `newBufferLenOf …` (the `maxlen` the deque is rebuilt with, clamps included)
+* `_ResamplingHelper.resample`                 -> `relevanceLowKey`, `relevanceHighKey` (the keys of the bisections that bound the slice)
+* `_StreamingHelper._receive_samples`          -> `acceptsSample isNone isNaN isInf` (path condition of `add_sample`)
+* module constants and `ResamplerConfig` defaults.
 
-Anything that does not have the expected shape raises (the check then treats the proofs as broken).
+`datetime`/`timedelta` are `Int` microseconds, `x.total_seconds()` the exact rational `x / 1_000_000`, `timedelta * float`
+is `tdMulFloat` (exact product, half-even to 1 µs).  Anything outside the understood subset raises (the check then
+treats the proofs as broken and searches for a failing input).
 """
 from __future__ import annotations
 
 import ast
 import pathlib
+import re
 from fractions import Fraction
 
 NAME = "Resampling"
@@ -46,148 +47,11 @@ def tdMulFloat (td : Int) (f : Rat) : Int := roundHalfEven ((td : Rat) * f)
 /-- `timedelta.total_seconds()` as an exact rational. -/
 def totalSeconds (td : Int) : Rat := (td : Rat) / 1000000
 
-/-- Which key a `bisect` call of `_ResamplingHelper.resample` searches for. -/
-inductive BisectKey where
-  | minimumRelevantTimestamp
-  | timestamp
-deriving Repr, DecidableEq
 """
 
 
 # ------------------------------------------------------------------------------------------------ typed expressions
 # Types: "Int" (time, µs), "Nat", "Rat", "OptInt", "Bool".
-class Tr:
-    """Expression translator driven by a table `source text of a sub-expression -> (lean term, type)`."""
-
-    def __init__(self, names: dict[str, tuple[str, str]]):
-        self.names = dict(names)
-
-    def num(self, n: ast.expr) -> tuple[str, str]:
-        src = ast.unparse(n)
-        if src in self.names:
-            return self.names[src]
-        if isinstance(n, ast.Constant) and isinstance(n.value, bool):
-            raise Unsupported(f"bool constant as number: {src}")
-        if isinstance(n, ast.Constant) and isinstance(n.value, int):
-            return (f"({n.value} : Int)", "Int")
-        if isinstance(n, ast.Constant) and isinstance(n.value, float):
-            fr = Fraction(n.value)
-            return (f"(({fr.numerator} : Rat) / {fr.denominator})", "Rat")
-        if isinstance(n, ast.Call):
-            f = ast.unparse(n.func)
-            if f == "timedelta" and not n.keywords and len(n.args) == 1 and ast.unparse(n.args[0]) == "0":
-                return ("(0 : Int)", "Int")
-            if f == "timedelta" and not n.args and len(n.keywords) == 1 and n.keywords[0].arg == "seconds":
-                # timedelta(seconds=<loop time>) — only for a term that is already integer µs in the table
-                t, ty = self.num(n.keywords[0].value)
-                if ty != "Int":
-                    raise Unsupported(f"timedelta(seconds=…) of a non-time value: {src}")
-                return (t, "Int")
-            if f == "_to_microseconds" and len(n.args) == 1:
-                t, ty = self.num(n.args[0])
-                if ty != "Int":
-                    raise Unsupported(src)
-                return (t, "Int")
-            if isinstance(n.func, ast.Attribute) and n.func.attr == "total_seconds" and not n.args:
-                t, ty = self.num(n.func.value)
-                if ty != "Int":
-                    raise Unsupported(src)
-                return (f"(totalSeconds {t})", "Rat")
-            if f == "max" and len(n.args) == 2 and not n.keywords:
-                (a, ta), (b, tb) = self.num(n.args[0]), self.num(n.args[1])
-                a, b, ty = self.unify(a, ta, b, tb)
-                return (f"(if {b} > {a} then {b} else {a})", ty)  # Python: first wins on ties
-            if f == "min" and len(n.args) == 2 and not n.keywords:
-                (a, ta), (b, tb) = self.num(n.args[0]), self.num(n.args[1])
-                a, b, ty = self.unify(a, ta, b, tb)
-                return (f"(if {b} < {a} then {b} else {a})", ty)
-            if f == "math.ceil" and len(n.args) == 1:
-                t, ty = self.num(n.args[0])
-                return (f"(Rat.ceil {self.cast(t, ty, 'Rat')})", "Int")
-            raise Unsupported(f"call {src}")
-        if isinstance(n, ast.BinOp):
-            (a, ta), (b, tb) = self.num(n.left), self.num(n.right)
-            if isinstance(n.op, ast.Mult):
-                # timedelta * float / timedelta * int
-                if ta == "Int" and tb == "Rat":
-                    return (f"(tdMulFloat {a} {b})", "Int")
-                if ta == "Rat" and tb == "Int":
-                    return (f"(tdMulFloat {b} {a})", "Int")
-                a, b, ty = self.unify(a, ta, b, tb)
-                return (f"({a} * {b})", ty)
-            if isinstance(n.op, (ast.Add, ast.Sub)):
-                a, b, ty = self.unify(a, ta, b, tb)
-                return (f"({a} {'+' if isinstance(n.op, ast.Add) else '-'} {b})", ty)
-            if isinstance(n.op, ast.Div):
-                return (f"({self.cast(a, ta, 'Rat')} / {self.cast(b, tb, 'Rat')})", "Rat")
-            if isinstance(n.op, ast.Mod):
-                if ta == tb == "Int":
-                    return (f"({a} % {b})", "Int")  # timedelta % timedelta: floor mod = Int.emod for a positive divisor
-                raise Unsupported(src)
-            raise Unsupported(f"operator in {src}")
-        if isinstance(n, ast.IfExp):
-            c = self.cond(n.test)
-            (a, ta), (b, tb) = self.num(n.body), self.num(n.orelse)
-            a, b, ty = self.unify(a, ta, b, tb)
-            return (f"(if {c} then {a} else {b})", ty)
-        raise Unsupported(f"expression {src}")
-
-    @staticmethod
-    def cast(t: str, ty: str, to: str) -> str:
-        if ty == to:
-            return t
-        if to == "Rat" and ty in ("Int", "Nat"):
-            return f"(({t} : {ty}) : Rat)" if ty == "Int" else f"((({t} : Nat) : Int) : Rat)"
-        if to == "Int" and ty == "Nat":
-            return f"(({t} : Nat) : Int)"
-        raise Unsupported(f"cast {ty} -> {to}")
-
-    def unify(self, a: str, ta: str, b: str, tb: str) -> tuple[str, str, str]:
-        if ta == tb:
-            return a, b, ta
-        order = ["Nat", "Int", "Rat"]
-        if ta in order and tb in order:
-            ty = order[max(order.index(ta), order.index(tb))]
-            return self.cast(a, ta, ty), self.cast(b, tb, ty), ty
-        raise Unsupported(f"cannot unify {ta} and {tb}")
-
-    def cond(self, n: ast.expr) -> str:
-        """A Lean `Bool` term."""
-        src = ast.unparse(n)
-        if src in self.names and self.names[src][1] == "Bool":
-            return self.names[src][0]
-        if isinstance(n, ast.BoolOp):
-            j = " && " if isinstance(n.op, ast.And) else " || "
-            return "(" + j.join(self.cond(v) for v in n.values) + ")"
-        if isinstance(n, ast.UnaryOp) and isinstance(n.op, ast.Not):
-            return f"(!{self.cond(n.operand)})"
-        if isinstance(n, ast.Compare) and len(n.ops) == 1:
-            op, right = n.ops[0], n.comparators[0]
-            if isinstance(op, (ast.Is, ast.IsNot)) and isinstance(right, ast.Constant) and right.value is None:
-                t, ty = self.num(n.left)
-                if ty != "OptInt":
-                    raise Unsupported(f"None test on non-optional {src}")
-                return f"({t}.isNone)" if isinstance(op, ast.Is) else f"({t}.isSome)"
-            ops = {ast.Lt: "<", ast.LtE: "≤", ast.Gt: ">", ast.GtE: "≥", ast.Eq: "=", ast.NotEq: "≠"}
-            for k, v in ops.items():
-                if isinstance(op, k):
-                    (a, ta), (b, tb) = self.num(n.left), self.num(right)
-                    # comparison against an Optional that the surrounding `or`/`if` has narrowed
-                    if tb == "OptInt" and ta != "OptInt":
-                        return f"({b}.any fun opt_v => decide ({a} {v} opt_v))"
-                    if ta == "OptInt" and tb != "OptInt":
-                        return f"({a}.any fun opt_v => decide (opt_v {v} {b}))"
-                    a, b, _ = self.unify(a, ta, b, tb)
-                    return f"(decide ({a} {v} {b}))"
-            raise Unsupported(f"comparison {src}")
-        # truthiness of a timedelta
-        t, ty = self.num(n)
-        if ty == "Int":
-            return f"(decide ({t} ≠ 0))"
-        raise Unsupported(f"condition {src}")
-
-
-# ------------------------------------------------------------------------------------------------ AST helpers
 def find_class(tree: ast.Module, name: str) -> ast.ClassDef:
     for n in tree.body:
         if isinstance(n, ast.ClassDef) and n.name == name:
@@ -275,345 +139,6 @@ def constants(tree: ast.Module) -> str:
     return "\n".join(out)
 
 
-def calc_window_end(res: ast.ClassDef) -> str:
-    fn = find_method(res, "_calculate_window_end")
-    names = {
-        "now": ("now", "Int"),
-        "self._config.resampling_period": ("period", "Int"),
-        "self._config.align_to": ("align_to", "OptInt"),
-    }
-    tr = Tr(names)
-    local_alias: dict[str, str] = {}
-
-    def block(stmts: list[ast.stmt], ind: str, narrowed: bool) -> str:
-        if not stmts:
-            raise Unsupported("_calculate_window_end may fall off its end")
-        s, rest = stmts[0], stmts[1:]
-        if isinstance(s, ast.Assign) and len(s.targets) == 1 and isinstance(s.targets[0], ast.Name):
-            tgt, src = s.targets[0].id, ast.unparse(s.value)
-            if src.replace(" ", "") in ("datetime.now(timezone.utc)", "datetime.now(tz=timezone.utc)"):
-                if tgt != "now":
-                    tr.names[tgt] = ("now", "Int")
-                return block(rest, ind, narrowed)
-            if src in names and src != "now":
-                tr.names[tgt] = names[src]
-                local_alias[tgt] = src
-                return block(rest, ind, narrowed)
-            t, ty = tr.num(s.value)
-            tr.names[tgt] = (tgt, ty)
-            return f"{ind}let {tgt} : {ty} := {t}\n" + block(rest, ind, narrowed)
-        if isinstance(s, ast.Return) and isinstance(s.value, ast.Tuple) and len(s.value.elts) == 2:
-            (a, ta), (b, tb) = tr.num(s.value.elts[0]), tr.num(s.value.elts[1])
-            if ta != "Int" or tb != "Int":
-                raise Unsupported("return type of _calculate_window_end")
-            return f"{ind}({a}, {b})"
-        if isinstance(s, ast.If):
-            test = s.test
-            if isinstance(test, ast.Compare) and len(test.ops) == 1 and isinstance(test.ops[0], (ast.Is, ast.IsNot)) \
-                    and isinstance(test.comparators[0], ast.Constant) and test.comparators[0].value is None:
-                v = tr.names.get(ast.unparse(test.left))
-                if v is None or v[1] != "OptInt" or narrowed:
-                    raise Unsupported("None test in _calculate_window_end")
-                key = ast.unparse(test.left)
-                saved = dict(tr.names)
-                none_branch, some_branch = (s.body, s.orelse) if isinstance(test.ops[0], ast.Is) else (s.orelse, s.body)
-                none_txt = block(none_branch + rest, ind + "  ", True)
-                tr.names = dict(saved)
-                for k, val in saved.items():
-                    if val == v:
-                        tr.names[k] = (f"{v[0]}_v", "Int")
-                some_txt = block(some_branch + rest, ind + "  ", True)
-                tr.names = saved
-                _ = key
-                return f"{ind}match {v[0]} with\n{ind}| none =>\n{none_txt}\n{ind}| some {v[0]}_v =>\n{some_txt}"
-            c = tr.cond(test)
-            saved = dict(tr.names)
-            a = block(s.body + rest, ind + "  ", narrowed)
-            tr.names = dict(saved)
-            b = block(s.orelse + rest, ind + "  ", narrowed)
-            tr.names = saved
-            return f"{ind}if {c} then\n{a}\n{ind}else\n{b}"
-        raise Unsupported(f"statement in _calculate_window_end: {ast.unparse(s)[:60]}")
-
-    body = block(strip_doc(fn.body), "  ", False)
-    return ("/-- `Resampler._calculate_window_end` with `datetime.now()` as the parameter `now`: "
-            "(window end, timer start delay). -/\n"
-            "def calculateWindowEnd (now period : Int) (align_to : Option Int) : Int × Int :=\n" + body)
-
-
-def timer_hack(res: ast.ClassDef) -> str:
-    init = find_method(res, "__init__")
-    start_delay_name = None
-    for s in ast.walk(init):
-        if isinstance(s, ast.Assign) and isinstance(s.targets[0], ast.Tuple) and \
-                ast.unparse(s.value) == "self._calculate_window_end()":
-            elts = s.targets[0].elts
-            if len(elts) == 2 and isinstance(elts[1], ast.Name):
-                start_delay_name = elts[1].id
-    if start_delay_name is None:
-        raise Unsupported("`window_end, start_delay = self._calculate_window_end()` not found in __init__")
-    timer_ok = False
-    for s in ast.walk(init):
-        if isinstance(s, ast.Call) and ast.unparse(s.func) == "Timer":
-            if len(s.args) == 2 and ast.unparse(s.args[0]) == "config.resampling_period" \
-                    and ast.unparse(s.args[1]) == "TriggerAllMissed()" and not s.keywords:
-                timer_ok = True
-    if not timer_ok:
-        raise Unsupported("Timer(config.resampling_period, TriggerAllMissed()) not found")
-    for s in init.body:
-        if isinstance(s, ast.Assign) and ast.unparse(s.targets[0]) == "self._timer._next_tick_time":
-            tr = Tr({
-                "asyncio.get_running_loop().time()": ("loopNow", "Int"),
-                "config.resampling_period": ("period", "Int"),
-                "self._config.resampling_period": ("period", "Int"),
-                start_delay_name: ("startDelay", "Int"),
-            })
-            t, ty = tr.num(s.value)
-            if ty != "Int":
-                raise Unsupported("timer hack type")
-            return ("/-- The hand-aligned `Timer._next_tick_time` of `Resampler.__init__` (loop clock, µs). -/\n"
-                    f"def firstTickTime (loopNow period startDelay : Int) : Int :=\n  {t}")
-    raise Unsupported("assignment to self._timer._next_tick_time not found")
-
-
-def resample_loop(res: ast.ClassDef) -> str:
-    fn = find_method(res, "resample")
-    loop = next((s for s in fn.body if isinstance(s, ast.AsyncFor)), None)
-    if loop is None or ast.unparse(loop.iter) != "self._timer":
-        raise Unsupported("`async for … in self._timer` not found in resample()")
-    body = loop.body
-    gather_idx = None
-    for i, s in enumerate(body):
-        for n in ast.walk(s):
-            if isinstance(n, ast.Await) and isinstance(n.value, ast.Call) and ast.unparse(n.value.func) == "asyncio.gather":
-                gather_idx = i
-                gather_call = n.value
-    if gather_idx is None:
-        raise Unsupported("await asyncio.gather(…) not found in resample()")
-    # every gathered coroutine is `<x>.resample(self._window_end)`
-    ok = False
-    for n in ast.walk(gather_call):
-        if isinstance(n, ast.Call) and isinstance(n.func, ast.Attribute) and n.func.attr == "resample":
-            if len(n.args) == 1 and ast.unparse(n.args[0]) == "self._window_end":
-                ok = True
-    if not ok:
-        raise Unsupported("gathered calls are not `.resample(self._window_end)`")
-    kws = {k.arg: ast.unparse(k.value) for k in gather_call.keywords}
-    if kws.get("return_exceptions") != "True":
-        raise Unsupported("gather without return_exceptions=True")
-    live_after = any(ast.unparse(n) == "self._resamplers" for s in body[gather_idx + 1:] for n in ast.walk(s))
-    live_in_gather = any(ast.unparse(n) == "self._resamplers" for n in ast.walk(body[gather_idx]))
-    snapshot_before = any(ast.unparse(n) == "self._resamplers" for s in body[:gather_idx] for n in ast.walk(s))
-    if not (live_in_gather or snapshot_before):
-        raise Unsupported("resample() never reads self._resamplers")
-    # the window advance: exactly one augmented assignment, not before the gather
-    adv = [(i, s) for i, s in enumerate(body) if isinstance(s, ast.AugAssign) and ast.unparse(s.target) == "self._window_end"]
-    other = [s for s in ast.walk(fn) if isinstance(s, ast.Assign) and any(ast.unparse(t) == "self._window_end" for t in s.targets)]
-    if len(adv) != 1 or other or adv[0][0] < gather_idx:
-        raise Unsupported("expected exactly one `self._window_end += …` after the gather")
-    # where the errors of the tick are raised: `if exceptions: raise ResamplingError(exceptions)`
-    raise_idx = [i for i, st in enumerate(body) if isinstance(st, ast.If) and
-                 any(isinstance(n, ast.Raise) and n.exc is not None and "ResamplingError" in ast.unparse(n.exc)
-                     for n in ast.walk(st))]
-    if len(raise_idx) != 1 or raise_idx[0] < gather_idx:
-        raise Unsupported("expected exactly one `if exceptions: raise ResamplingError(…)` after the gather")
-    advance_on_error = adv[0][0] < raise_idx[0]
-    s = adv[0][1]
-    tr = Tr({"self._config.resampling_period": ("period", "Int"), "self._window_end": ("windowEnd", "Int")})
-    if not isinstance(s.op, (ast.Add, ast.Sub)):
-        raise Unsupported("window advance operator")
-    t, ty = tr.num(s.value)
-    if ty != "Int":
-        raise Unsupported("window advance type")
-    sym = "+" if isinstance(s.op, ast.Add) else "-"
-    return (f"/-- `self._window_end {sym}= …` after every gather. -/\n"
-            f"def advanceWindowEnd (windowEnd period : Int) : Int :=\n  windowEnd {sym} {t}\n\n"
-            "/-- `true`: after the gather `resample()` only uses a snapshot of the series taken before it;\n"
-            "`false`: it reads the live `self._resamplers` again (series added/removed in flight are mis-indexed). -/\n"
-            f"def gatherOverSnapshot : Bool := {'false' if live_after else 'true'}\n\n"
-            "/-- `true`: the window end is advanced before the errors of the tick are raised (a tick that ends with a\n"
-            "`ResamplingError` still consumes its window); `false`: only error-free ticks advance it. -/\n"
-            f"def advanceOnError : Bool := {'true' if advance_on_error else 'false'}")
-
-
-HELPER_NAMES = {
-    "props.sampling_period": ("samplingPeriod", "OptInt"),
-    "self._source_properties.sampling_period": ("samplingPeriod", "OptInt"),
-    "props.sampling_start": ("samplingStart", "OptInt"),
-    "self._source_properties.sampling_start": ("samplingStart", "OptInt"),
-    "props.received_samples": ("received", "Nat"),
-    "self._source_properties.received_samples": ("received", "Nat"),
-    "config.resampling_period": ("resamplingPeriod", "Int"),
-    "conf.resampling_period": ("resamplingPeriod", "Int"),
-    "self._config.resampling_period": ("resamplingPeriod", "Int"),
-    "config.max_data_age_in_periods": ("maxAge", "Rat"),
-    "conf.max_data_age_in_periods": ("maxAge", "Rat"),
-    "self._config.max_data_age_in_periods": ("maxAge", "Rat"),
-    "len(self._buffer)": ("bufLen", "Nat"),
-    "self._buffer.maxlen": ("maxlen", "Nat"),
-}
-
-
-def helper_parts(hel: ast.ClassDef) -> str:
-    out = []
-    # --- _update_source_sample_period: `if (<guard>): return False`
-    fn = find_method(hel, "_update_source_sample_period")
-    if [a.arg for a in fn.args.args] != ["self", "now"]:
-        raise Unsupported("_update_source_sample_period signature")
-    guard = None
-    for s in fn.body:
-        if isinstance(s, ast.If) and len(s.body) == 1 and isinstance(s.body[0], ast.Return) \
-                and ast.unparse(s.body[0].value) == "False" and not s.orelse:
-            guard = s.test
-            break
-    if guard is None:
-        raise Unsupported("guard of _update_source_sample_period not found")
-    tr = Tr({**HELPER_NAMES, "now": ("now", "Int")})
-    out.append("/-- The guard of `_update_source_sample_period`: `true` = the input period is NOT (re)estimated now. -/\n"
-               "def skipPeriodUpdate (samplingPeriod samplingStart : Option Int) (received : Nat) (resamplingPeriod : Int)\n"
-               "    (maxAge : Rat) (bufLen maxlen : Nat) (now : Int) : Bool :=\n  " + tr.cond(guard))
-    # what is estimated: timedelta(seconds=(now - start).total_seconds() / received) — a float computation whose value
-    # the model takes from the implementation; what IS extracted is the lower clamp (0 = none) applied to it.
-    def is_raw(v: ast.expr) -> bool:
-        return (isinstance(v, ast.Call) and ast.unparse(v.func) == "timedelta" and not v.args and len(v.keywords) == 1
-                and v.keywords[0].arg == "seconds" and isinstance(v.keywords[0].value, ast.BinOp)
-                and isinstance(v.keywords[0].value.op, ast.Div)
-                and ast.unparse(v.keywords[0].value.left).endswith(".total_seconds()")
-                and ast.unparse(v.keywords[0].value.right) in ("props.received_samples",
-                                                                "self._source_properties.received_samples"))
-
-    def is_resolution(v: ast.expr) -> bool:
-        return ast.unparse(v) in ("timedelta.resolution", "timedelta(microseconds=1)")
-
-    floor = None
-    for s in ast.walk(fn):
-        if isinstance(s, ast.Assign) and ast.unparse(s.targets[0]) in ("props.sampling_period", "self._source_properties.sampling_period"):
-            v = s.value
-            if is_raw(v):
-                floor = 0
-            elif isinstance(v, ast.Call) and ast.unparse(v.func) == "max" and len(v.args) == 2 and not v.keywords and \
-                    ((is_raw(v.args[0]) and is_resolution(v.args[1])) or (is_raw(v.args[1]) and is_resolution(v.args[0]))):
-                floor = 1
-            else:
-                raise Unsupported(f"shape of the input-period estimate: {ast.unparse(v)[:80]}")
-    if floor is None:
-        raise Unsupported("assignment of the estimated sampling period not found")
-    out.append("/-- Lower clamp (µs) applied to the estimated input period (0: the estimate may round down to zero). -/\n"
-               f"def minInputPeriodEstimate : Int := {floor}")
-
-    # --- _update_buffer_len: new_buffer_len = math.ceil(<expr>)
-    fn = find_method(hel, "_update_buffer_len")
-    tr = Tr(dict(HELPER_NAMES))
-    raw = None
-    for s in strip_doc(fn.body):
-        if isinstance(s, ast.Assign) and len(s.targets) == 1 and isinstance(s.targets[0], ast.Name):
-            src = ast.unparse(s.value)
-            if src in HELPER_NAMES:
-                tr.names[s.targets[0].id] = HELPER_NAMES[src]
-                continue
-            if src == "self._config":
-                continue
-            if s.targets[0].id == "new_buffer_len" and raw is None:
-                # Option narrowing: the function asserts sampling_period is not None
-                tr.names = {k: (("inputPeriod", "Int") if v == ("samplingPeriod", "OptInt") else v) for k, v in tr.names.items()}
-                t, ty = tr.num(s.value)
-                if ty != "Int":
-                    raise Unsupported("new_buffer_len is not math.ceil(…)")
-                raw = t
-                break
-    if raw is None:
-        raise Unsupported("new_buffer_len = math.ceil(…) not found")
-    # the clamps that follow: max(1, n); > max_buffer_len -> max_buffer_len
-    rest_src = ast.unparse(fn)
-    if "new_buffer_len = max(1, new_buffer_len)" not in rest_src or \
-            "if new_buffer_len > config.max_buffer_len:" not in rest_src or \
-            "new_buffer_len = config.max_buffer_len" not in rest_src or \
-            "self._buffer = deque(self._buffer, maxlen=new_buffer_len)" not in rest_src:
-        raise Unsupported("clamps / deque rebuild of _update_buffer_len changed")
-    out.append("/-- `math.ceil(…)` of `_update_buffer_len` over exact rationals (`inputPeriod` = the estimated input period). -/\n"
-               "def rawBufferLen (inputPeriod resamplingPeriod : Int) (maxAge : Rat) : Int :=\n  " + raw)
-
-    # --- resample(): period, minimum_relevant_timestamp, the two bisects, islice
-    fn = find_method(hel, "resample")
-    if [a.arg for a in fn.args.args] != ["self", "timestamp"]:
-        raise Unsupported("_ResamplingHelper.resample signature")
-    body = strip_doc(fn.body)
-    first = body[0]
-    if not (isinstance(first, ast.If) and ast.unparse(first.test) == "self._update_source_sample_period(timestamp)"
-            and len(first.body) == 1 and ast.unparse(first.body[0]) == "self._update_buffer_len()" and not first.orelse):
-        raise Unsupported("resample() does not start with the period/buffer update")
-    tr = Tr({**HELPER_NAMES, "timestamp": ("timestamp", "Int")})
-    period_txt = min_txt = None
-    min_name = None  # local holding minimum_relevant_timestamp
-    bis: dict[str, str] = {}  # local name -> BisectKey of the bisect call assigned to it
-    slice_names: tuple[str, str] | None = None
-    rel_name = None
-    CFG = ("conf", "config", "self._config")
-    PROPS = ("props", "self._source_properties")
-    for s in body[1:]:
-        if isinstance(s, ast.Assign) and len(s.targets) == 1 and isinstance(s.targets[0], ast.Name):
-            tgt, v, src = s.targets[0].id, s.value, ast.unparse(s.value)
-            if src in ("self._config", "self._source_properties"):
-                continue
-            if isinstance(v, ast.IfExp) and ast.unparse(v.test) in tuple(f"{p}.sampling_period is not None" for p in PROPS):
-                # `max(a, b) if b is not None else a`: narrow b in the `then` branch
-                tr_some = Tr({k: (("sp", "Int") if val == ("samplingPeriod", "OptInt") else val) for k, val in tr.names.items()})
-                a, ta = tr_some.num(v.body)
-                b, tb = tr.num(v.orelse)
-                if ta != "Int" or tb != "Int" or period_txt is not None:
-                    raise Unsupported("relevance period")
-                period_txt = f"match samplingPeriod with\n  | some sp => {a}\n  | none => {b}"
-                tr.names[tgt] = ("period", "Int")
-            elif isinstance(v, ast.Call) and ast.unparse(v.func) in ("bisect", "bisect_right", "bisect.bisect", "bisect.bisect_right"):
-                if not (len(v.args) == 2 and ast.unparse(v.args[0]) == "self._buffer"
-                        and {k.arg: ast.unparse(k.value) for k in v.keywords} == {"key": "lambda s: s.timestamp"}):
-                    raise Unsupported(f"{tgt} is not bisect(self._buffer, <key>, key=lambda s: s.timestamp)")
-                key = ast.unparse(v.args[1])
-                if key == "timestamp":
-                    bis[tgt] = "BisectKey.timestamp"
-                elif min_name is not None and key == min_name:
-                    bis[tgt] = "BisectKey.minimumRelevantTimestamp"
-                else:
-                    raise Unsupported(f"{tgt}: unknown bisect key {key}")
-            elif isinstance(v, ast.Call) and ast.unparse(v.func) in ("bisect_left", "bisect.bisect_left", "insort"):
-                raise Unsupported(f"{tgt} uses {ast.unparse(v.func)}")
-            elif src.replace(" ", "").startswith("list(itertools.islice(self._buffer,"):
-                inner = v.args[0]  # type: ignore[attr-defined]
-                if not (isinstance(inner, ast.Call) and len(inner.args) == 3 and all(isinstance(a, ast.Name) for a in inner.args[1:])):
-                    raise Unsupported("relevant samples are not list(islice(self._buffer, <name>, <name>))")
-                slice_names = (inner.args[1].id, inner.args[2].id)  # type: ignore[attr-defined]
-                rel_name = tgt
-            elif isinstance(v, ast.BinOp) and isinstance(v.op, ast.Sub) and ast.unparse(v.left) == "timestamp" and min_txt is None:
-                t, ty = tr.num(v)
-                if ty != "Int":
-                    raise Unsupported("minimum_relevant_timestamp type")
-                min_txt, min_name = t, tgt
-    if period_txt is None or min_txt is None or slice_names is None or not set(slice_names) <= set(bis):
-        raise Unsupported("window computation of _ResamplingHelper.resample changed shape")
-    out.append("/-- `period` of `_ResamplingHelper.resample`: the larger of the resampling period and the input period. -/\n"
-               "def relevancePeriod (resamplingPeriod : Int) (samplingPeriod : Option Int) : Int :=\n  " + period_txt)
-    out.append("/-- `minimum_relevant_timestamp` of `_ResamplingHelper.resample`. -/\n"
-               "def minimumRelevantTimestamp (timestamp period : Int) (maxAge : Rat) : Int :=\n  " + min_txt)
-    out.append(f"/-- `min_index = bisect_right(buffer, <this key>)`. -/\ndef minIndexKey : BisectKey := {bis[slice_names[0]]}")
-    out.append(f"/-- `max_index = bisect_right(buffer, <this key>)`. -/\ndef maxIndexKey : BisectKey := {bis[slice_names[1]]}")
-    # the value: function applied when there are relevant samples, else None
-    norm = lambda x: ast.unparse(x).replace(" ", "").replace("\n", "")  # noqa: E731
-    val_name = None
-    for s in body:
-        if isinstance(s, ast.Assign) and len(s.targets) == 1 and isinstance(s.targets[0], ast.Name) and isinstance(s.value, ast.IfExp):
-            v = s.value
-            if norm(v.test) == rel_name and norm(v.orelse) == "None" and isinstance(v.body, ast.Call) \
-                    and norm(v.body.func) in tuple(f"{c}.resampling_function" for c in CFG) \
-                    and len(v.body.args) == 3 and norm(v.body.args[0]) == rel_name:
-                val_name = s.targets[0].id
-    ret_ok = val_name is not None and any(
-        isinstance(s, ast.Return) and norm(s.value) == f"Sample(timestamp,Noneif{val_name}isNoneelseQuantity({val_name}))"
-        for s in body)
-    if not ret_ok:
-        raise Unsupported("value / return of _ResamplingHelper.resample changed shape")
-    return "\n\n".join(out)
-
-
 def bisect_import(tree: ast.Module) -> None:
     for n in tree.body:
         if isinstance(n, ast.ImportFrom) and n.module == "bisect":
@@ -624,13 +149,714 @@ def bisect_import(tree: ast.Module) -> None:
     raise Unsupported("`from bisect import bisect` not found")
 
 
+
+
+# ------------------------------------------------------------------------------------------------ symbolic values
+class Num:
+    """A Lean term of type Int / Nat / Rat / Bool / OptInt."""
+
+    def __init__(self, term: str, ty: str):
+        self.term, self.ty = term, ty
+
+    def __repr__(self) -> str:
+        return f"Num({self.term}:{self.ty})"
+
+
+class Obj:
+    """A symbolic object identified by an access path (`self._config`, …)."""
+
+    def __init__(self, path: str):
+        self.path = path
+
+
+class Tup:
+    def __init__(self, items: list):
+        self.items = items
+
+
+class NoneV:
+    pass
+
+
+class Opaque:
+    """Something the extraction does not need to understand (it must never reach an extracted term)."""
+
+    def __init__(self, why: str):
+        self.why = why
+
+
+class Est:
+    """The float estimate of the input period, with the lower clamp (µs) applied to it."""
+
+    def __init__(self, floor: int):
+        self.floor = floor
+
+
+class Bisect:
+    def __init__(self, key: "Num"):
+        self.key = key
+
+
+class Slice:
+    def __init__(self, lo, hi):  # type: ignore[no-untyped-def]
+        self.lo, self.hi = lo, hi
+
+
+class Bottom:
+    """The target statement is not reached on this path."""
+
+
+def cast(t: str, ty: str, to: str) -> str:
+    if ty == to:
+        return t
+    if to == "Rat" and ty == "Int":
+        return f"(({t} : Int) : Rat)"
+    if to == "Rat" and ty == "Nat":
+        return f"((({t} : Nat) : Int) : Rat)"
+    if to == "Int" and ty == "Nat":
+        return f"(({t} : Nat) : Int)"
+    raise Unsupported(f"cast {ty} -> {to}")
+
+
+def unify(a: Num, b: Num) -> tuple[str, str, str]:
+    order = ["Nat", "Int", "Rat"]
+    if "Unk" in (a.ty, b.ty):
+        raise Unsupported(f"a value computed from an un-narrowed Optional is used: {a.term} / {b.term}")
+    if a.ty == b.ty:
+        return a.term, b.term, a.ty
+    if a.ty in order and b.ty in order:
+        ty = order[max(order.index(a.ty), order.index(b.ty))]
+        return cast(a.term, a.ty, ty), cast(b.term, b.ty, ty), ty
+    raise Unsupported(f"cannot unify {a.ty} and {b.ty}")
+
+
+def ite(c: Num, a, b):  # type: ignore[no-untyped-def]
+    """`if c then a else b` over symbolic values (paths that do not reach the target are dropped)."""
+    if isinstance(a, Bottom):
+        return b
+    if isinstance(b, Bottom):
+        return a
+    if isinstance(a, Tup) and isinstance(b, Tup) and len(a.items) == len(b.items):
+        return Tup([ite(c, x, y) for x, y in zip(a.items, b.items)])
+    if isinstance(a, Num) and isinstance(b, Num):
+        if a.term == b.term and a.ty == b.ty:
+            return a
+        if a.ty == "Bool" and b.ty == "Bool":
+            return Num(f"(if {c.term} then {a.term} else {b.term})", "Bool")
+        x, y, ty = unify(a, b)
+        return Num(f"(if {c.term} then {x} else {y})", ty)
+    if isinstance(a, Est) and isinstance(b, Est) and a.floor == b.floor:
+        return a
+    if isinstance(a, Obj) and isinstance(b, Obj) and a.path == b.path:
+        return a
+    if isinstance(a, NoneV) and isinstance(b, NoneV):
+        return a
+    if isinstance(a, Bisect) and isinstance(b, Bisect):
+        return Bisect(ite(c, a.key, b.key))
+    return Opaque("values that differ between branches")
+
+
+class Sym:
+    """Symbolic execution of straight-line / branching code."""
+
+    def __init__(self, leaves: dict[str, Num], params: dict[str, object], calls: dict[str, object] | None = None):
+        self.leaves = leaves  # access path -> term
+        self.calls = calls or {}  # source text of a call -> value
+        self.params = params
+
+    # ------------------------------------------------------------------ expressions
+    def ev(self, n: ast.expr, env: dict):  # type: ignore[no-untyped-def]
+        src = ast.unparse(n)
+        if src in self.calls:
+            return self.calls[src]
+        if isinstance(n, ast.Name):
+            if n.id in env:
+                return env[n.id]
+            if n.id == "self":
+                return Obj("self")
+            return Opaque(f"name {n.id}")
+        if isinstance(n, ast.Constant):
+            if n.value is None:
+                return NoneV()
+            if isinstance(n.value, bool):
+                return Num("true" if n.value else "false", "Bool")
+            if isinstance(n.value, int):
+                return Num(f"({n.value} : Int)", "Int")
+            if isinstance(n.value, float):
+                fr = Fraction(n.value)
+                return Num(f"(({fr.numerator} : Rat) / {fr.denominator})", "Rat")
+            return Opaque("constant")
+        if isinstance(n, ast.Tuple):
+            return Tup([self.ev(e, env) for e in n.elts])
+        if isinstance(n, ast.Attribute):
+            if src == "timedelta.resolution":
+                return Num("(1 : Int)", "Int")
+            base = self.ev(n.value, env)
+            if isinstance(base, Obj):
+                path = f"{base.path}.{n.attr}"
+                if path in env:
+                    return env[path]
+                if path in self.leaves:
+                    return self.leaves[path]
+                return Obj(path)
+            return Opaque(f"attribute {src}")
+        if isinstance(n, ast.UnaryOp) and isinstance(n.op, ast.Not):
+            return Num(f"(!{self.cond(n.operand, env).term})", "Bool")
+        if isinstance(n, ast.UnaryOp) and isinstance(n.op, ast.USub):
+            v = self.ev(n.operand, env)
+            if isinstance(v, Num) and v.ty in ("Int", "Rat"):
+                return Num(f"(-{v.term})", v.ty)
+            return Opaque(src)
+        if isinstance(n, (ast.BoolOp, ast.Compare)):
+            return self.cond(n, env)
+        if isinstance(n, ast.IfExp):
+            return self.branch(n.test, env, lambda e: self.ev(n.body, e), lambda e: self.ev(n.orelse, e))
+        if isinstance(n, ast.BinOp):
+            a, b = self.ev(n.left, env), self.ev(n.right, env)
+            if isinstance(a, Num) and isinstance(b, Num) and (a.ty in ("OptInt", "Unk") or b.ty in ("OptInt", "Unk")):
+                # an Optional the code has narrowed by a guard we do not track: usable for shape recognition only
+                return Num(f"({a.term} ? {b.term})", "Unk")
+            if not (isinstance(a, Num) and isinstance(b, Num)) or "Bool" in (a.ty, b.ty):
+                return Opaque(src)
+            if isinstance(n.op, ast.Mult):
+                if a.ty == "Int" and b.ty == "Rat":
+                    return Num(f"(tdMulFloat {a.term} {b.term})", "Int")
+                if a.ty == "Rat" and b.ty == "Int":
+                    return Num(f"(tdMulFloat {b.term} {a.term})", "Int")
+                x, y, ty = unify(a, b)
+                return Num(f"({x} * {y})", ty)
+            if isinstance(n.op, (ast.Add, ast.Sub)):
+                x, y, ty = unify(a, b)
+                return Num(f"({x} {'+' if isinstance(n.op, ast.Add) else '-'} {y})", ty)
+            if isinstance(n.op, ast.Div):
+                return Num(f"({cast(a.term, a.ty, 'Rat')} / {cast(b.term, b.ty, 'Rat')})", "Rat")
+            if isinstance(n.op, ast.Mod) and a.ty == b.ty == "Int":
+                return Num(f"({a.term} % {b.term})", "Int")  # timedelta % timedelta: floor mod = Int.emod (divisor > 0)
+            return Opaque(src)
+        if isinstance(n, ast.Call):
+            return self.call(n, env)
+        if isinstance(n, ast.Starred):
+            return Opaque(src)
+        return Opaque(src)
+
+    def call(self, n: ast.Call, env: dict):  # type: ignore[no-untyped-def]
+        src = ast.unparse(n)
+        if src in self.leaves:
+            return self.leaves[src]
+        f = ast.unparse(n.func)
+        kw = {k.arg: k.value for k in n.keywords}
+        if f == "datetime.now":
+            a = [ast.unparse(x) for x in n.args] + [f"{k.arg}={ast.unparse(k.value)}" for k in n.keywords]
+            if a not in (["timezone.utc"], ["tz=timezone.utc"]):
+                return Opaque("datetime.now() not in UTC")
+            return self.leaves.get("<now>", Opaque("datetime.now()"))
+        if f == "asyncio.get_running_loop().time" or f.endswith(".time") and "loop" in f:
+            return self.leaves.get("<loop-time>", Opaque("loop time"))
+        if f == "timedelta":
+            if not n.keywords and len(n.args) == 1 and ast.unparse(n.args[0]) == "0":
+                return Num("(0 : Int)", "Int")
+            if not n.args and list(kw) == ["microseconds"] and ast.unparse(kw["microseconds"]) == "1":
+                return Num("(1 : Int)", "Int")
+            if not n.args and list(kw) == ["seconds"]:
+                v = self.ev(kw["seconds"], env)
+                if isinstance(v, Num) and v.ty == "Int":
+                    return v  # a loop time, already integer µs
+                if isinstance(v, Num) and v.ty in ("Unk", "Rat") and re.fullmatch(
+                        r"\(\(totalSeconds \(now [?-] samplingStart(_v)?\)\) [?/] (received|\(\(\(received : Nat\) : Int\) : Rat\))\)",
+                        v.term):
+                    return Est(0)  # timedelta(seconds=(now - sampling_start).total_seconds() / received_samples)
+                return Opaque("float seconds")
+            return Opaque(src)
+        if f == "_to_microseconds" and len(n.args) == 1:
+            return self.ev(n.args[0], env)
+        if isinstance(n.func, ast.Attribute) and n.func.attr == "total_seconds" and not n.args:
+            v = self.ev(n.func.value, env)
+            if isinstance(v, Num) and v.ty == "Int":
+                return Num(f"(totalSeconds {v.term})", "Rat")
+            if isinstance(v, Num) and v.ty == "Unk":
+                return Num(f"(totalSeconds {v.term})", "Unk")
+            return Opaque(src)
+        if f in ("max", "min") and len(n.args) == 2 and not n.keywords:
+            a, b = self.ev(n.args[0], env), self.ev(n.args[1], env)
+            if isinstance(a, Est) or isinstance(b, Est):
+                e, o = (a, b) if isinstance(a, Est) else (b, a)
+                if f == "max" and isinstance(o, Num) and o.term == "(1 : Int)":
+                    return Est(max(e.floor, 1))
+                raise Unsupported(f"shape of the input-period estimate: {src[:80]}")
+            if isinstance(a, Num) and isinstance(b, Num) and a.ty != "OptInt" and b.ty != "OptInt":
+                x, y, ty = unify(a, b)
+                op = ">" if f == "max" else "<"
+                return Num(f"(if {y} {op} {x} then {y} else {x})", ty)  # Python: the first wins on ties
+            if any(isinstance(v, Num) and v.ty == "OptInt" for v in (a, b)):
+                raise Unsupported(f"{f}() of an Optional that is not narrowed: {src}")
+            return Opaque(src)
+        if f == "math.ceil" and len(n.args) == 1:
+            v = self.ev(n.args[0], env)
+            if isinstance(v, Num) and v.ty in ("Rat", "Int", "Nat"):
+                return Num(f"(Rat.ceil {cast(v.term, v.ty, 'Rat')})", "Int")
+            return Opaque(src)
+        if f == "len" and len(n.args) == 1:
+            v = self.ev(n.args[0], env)
+            if isinstance(v, Obj) and f"len({v.path})" in self.leaves:
+                return self.leaves[f"len({v.path})"]
+            return Opaque(src)
+        if f in ("bisect", "bisect_right", "bisect.bisect", "bisect.bisect_right"):
+            buf = self.ev(n.args[0], env) if n.args else None
+            key = kw.get("key")
+            if not (len(n.args) == 2 and isinstance(buf, Obj) and buf.path == "self._buffer" and set(kw) == {"key"}
+                    and isinstance(key, ast.Lambda) and len(key.args.args) == 1 and isinstance(key.body, ast.Attribute)
+                    and isinstance(key.body.value, ast.Name) and key.body.value.id == key.args.args[0].arg
+                    and key.body.attr == "timestamp"):
+                raise Unsupported(f"not bisect(self._buffer, <key>, key=lambda s: s.timestamp): {src[:80]}")
+            k = self.ev(n.args[1], env)
+            if not (isinstance(k, Num) and k.ty == "Int"):
+                raise Unsupported(f"bisect key is not a time: {src[:80]}")
+            return Bisect(k)
+        if f in ("bisect_left", "bisect.bisect_left"):
+            raise Unsupported("bisect_left")
+        if f in ("itertools.islice", "islice") and len(n.args) == 3:
+            buf = self.ev(n.args[0], env)
+            if isinstance(buf, Obj) and buf.path == "self._buffer":
+                return Slice(self.ev(n.args[1], env), self.ev(n.args[2], env))
+            return Opaque(src)
+        if f in ("list", "tuple") and len(n.args) == 1 and not n.keywords:
+            v = self.ev(n.args[0], env)
+            return v if isinstance(v, Slice) else Opaque(src)
+        if f == "cast" and len(n.args) == 2:
+            return self.ev(n.args[1], env)
+        if f in ("math.isnan", "math.isinf", "math.isfinite") and len(n.args) == 1:
+            v = self.ev(n.args[0], env)
+            if isinstance(v, Obj) and f"{f}({v.path})" in self.leaves:
+                return self.leaves[f"{f}({v.path})"]
+            return Opaque(src)
+        if isinstance(n.func, ast.Attribute) and not n.args and not n.keywords:
+            v = self.ev(n.func.value, env)
+            if isinstance(v, Obj) and f"{v.path}.{n.func.attr}()" in self.leaves:
+                return self.leaves[f"{v.path}.{n.func.attr}()"]
+        return Opaque(src)
+
+    # ------------------------------------------------------------------ conditions
+    def none_test(self, n: ast.expr, env: dict):  # type: ignore[no-untyped-def]
+        """(value, is_none_test) when `n` is `<x> is None` / `<x> is not None`."""
+        if isinstance(n, ast.Compare) and len(n.ops) == 1 and isinstance(n.ops[0], (ast.Is, ast.IsNot)) \
+                and isinstance(n.comparators[0], ast.Constant) and n.comparators[0].value is None:
+            return self.ev(n.left, env), isinstance(n.ops[0], ast.Is)
+        if isinstance(n, ast.UnaryOp) and isinstance(n.op, ast.Not):
+            r = self.none_test(n.operand, env)
+            if r is not None:
+                return r[0], not r[1]
+        return None
+
+    def cond(self, n: ast.expr, env: dict) -> Num:
+        src = ast.unparse(n)
+        if isinstance(n, ast.BoolOp):
+            j = " && " if isinstance(n.op, ast.And) else " || "
+            return Num("(" + j.join(self.cond(v, env).term for v in n.values) + ")", "Bool")
+        if isinstance(n, ast.UnaryOp) and isinstance(n.op, ast.Not):
+            return Num(f"(!{self.cond(n.operand, env).term})", "Bool")
+        nt = self.none_test(n, env)
+        if nt is not None:
+            v, is_none = nt
+            if isinstance(v, Num) and v.ty == "OptInt":
+                return Num(f"({v.term}.isNone)" if is_none else f"({v.term}.isSome)", "Bool")
+            if isinstance(v, Num) and v.ty == "Bool" and v.term.startswith("<isNone:"):
+                t = v.term[len("<isNone:"):-1]
+                return Num(t if is_none else f"(!{t})", "Bool")
+            if isinstance(v, NoneV):
+                return Num("true" if is_none else "false", "Bool")
+            if isinstance(v, Num):  # a narrowed Optional
+                return Num("false" if is_none else "true", "Bool")
+            raise Unsupported(f"None test on {src}")
+        if isinstance(n, ast.Compare):
+            ops = {ast.Lt: "<", ast.LtE: "≤", ast.Gt: ">", ast.GtE: "≥", ast.Eq: "=", ast.NotEq: "≠"}
+            parts = []
+            left = n.left
+            for op, right in zip(n.ops, n.comparators):
+                sym = next((v for k, v in ops.items() if isinstance(op, k)), None)
+                a, b = self.ev(left, env), self.ev(right, env)
+                if sym is None or not (isinstance(a, Num) and isinstance(b, Num)):
+                    raise Unsupported(f"comparison {src}")
+                if b.ty == "OptInt" and a.ty != "OptInt":  # guarded by a None test elsewhere in the same chain
+                    parts.append(f"({b.term}.any fun opt_v => decide ({a.term} {sym} opt_v))")
+                elif a.ty == "OptInt" and b.ty != "OptInt":
+                    parts.append(f"({a.term}.any fun opt_v => decide (opt_v {sym} {b.term}))")
+                else:
+                    x, y, _ = unify(a, b)
+                    parts.append(f"(decide ({x} {sym} {y}))")
+                left = right
+            return Num(parts[0] if len(parts) == 1 else "(" + " && ".join(parts) + ")", "Bool")
+        v = self.ev(n, env)
+        if isinstance(v, Num) and v.ty == "Bool":
+            return v
+        if isinstance(v, Num) and v.ty == "Int":  # truthiness of a timedelta
+            return Num(f"(decide ({v.term} ≠ 0))", "Bool")
+        if isinstance(v, Slice):
+            return Num("<slice-nonempty>", "Bool")
+        raise Unsupported(f"condition {src}")
+
+    def branch(self, test: ast.expr, env: dict, then, orelse):  # type: ignore[no-untyped-def]
+        """Evaluate both continuations of a test; a None test on an Optional leaf becomes a `match`."""
+        nt = self.none_test(test, env)
+        if nt is not None and isinstance(nt[0], Num) and nt[0].ty == "OptInt" and re.fullmatch(r"\w+", nt[0].term):
+            v, is_none = nt
+            some_env = {k: (Num(f"{v.term}_v", "Int") if isinstance(x, Num) and x.term == v.term and x.ty == "OptInt" else x)
+                        for k, x in env.items()}
+            saved = self.leaves
+            self.leaves = {k: (Num(f"{v.term}_v", "Int") if x.term == v.term and x.ty == "OptInt" else x)
+                           for k, x in saved.items()}
+            try:
+                some_val = (orelse if is_none else then)(some_env)
+            finally:
+                self.leaves = saved
+            none_env = {k: (NoneV() if isinstance(x, Num) and x.term == v.term and x.ty == "OptInt" else x)
+                        for k, x in env.items()}
+            self.leaves = {k: x for k, x in saved.items()}
+            none_leaf_keys = [k for k, x in saved.items() if x.term == v.term and x.ty == "OptInt"]
+            for k in none_leaf_keys:
+                none_env[k] = NoneV()
+            try:
+                none_val = (then if is_none else orelse)(none_env)
+            finally:
+                self.leaves = saved
+            return self.match_opt(v.term, none_val, some_val)
+        c = self.cond(test, env)
+        return ite(c, then(dict(env)), orelse(dict(env)))
+
+    @staticmethod
+    def match_opt(opt: str, none_val, some_val):  # type: ignore[no-untyped-def]
+        if isinstance(none_val, Bottom):
+            return some_val if not (isinstance(some_val, Num) and f"{opt}_v" in some_val.term) else Opaque("narrowed")
+        if isinstance(some_val, Bottom):
+            return none_val
+        if isinstance(none_val, Tup) and isinstance(some_val, Tup) and len(none_val.items) == len(some_val.items):
+            return Tup([Sym.match_opt(opt, a, b) for a, b in zip(none_val.items, some_val.items)])
+        if isinstance(none_val, Num) and isinstance(some_val, Num):
+            if none_val.ty == "Bool" and some_val.ty == "Bool":
+                ty, a, b = "Bool", none_val.term, some_val.term
+            else:
+                a, b, ty = unify(none_val, some_val)
+            if a == b and f"{opt}_v" not in b:
+                return Num(a, ty)
+            return Num(f"(match {opt} with | none => {a} | some {opt}_v => {b})", ty)
+        if isinstance(none_val, Bisect) and isinstance(some_val, Bisect):
+            return Bisect(Sym.match_opt(opt, none_val.key, some_val.key))
+        return Opaque("values that differ between None / not None")
+
+    # ------------------------------------------------------------------ statements (continuation passing)
+    def run(self, stmts: list[ast.stmt], env: dict, target):  # type: ignore[no-untyped-def]
+        """The value `target(stmt, env)` yields at the first statement where it is not None, as a function of the
+        inputs; `Bottom` on paths that return / fall off before."""
+        if not stmts:
+            return Bottom()
+        s, rest = stmts[0], stmts[1:]
+        hit = target(s, env)
+        if hit is not None:
+            return hit
+        if isinstance(s, ast.Return):
+            return Bottom()
+        if isinstance(s, (ast.Assert, ast.Pass, ast.Import, ast.ImportFrom)):
+            return self.run(rest, env, target)
+        if isinstance(s, ast.Expr):
+            return self.run(rest, env, target)
+        if isinstance(s, ast.AnnAssign):
+            if s.value is None:
+                return self.run(rest, env, target)
+            env = dict(env)
+            self.assign(s.target, self.ev(s.value, env), env)
+            return self.run(rest, env, target)
+        if isinstance(s, ast.Assign):
+            env = dict(env)
+            v = self.ev(s.value, env)
+            for t in s.targets:
+                self.assign(t, v, env)
+            return self.run(rest, env, target)
+        if isinstance(s, ast.AugAssign):
+            env = dict(env)
+            cur = self.ev(s.target, env)
+            rhs = self.ev(s.value, env)
+            if isinstance(cur, Num) and isinstance(rhs, Num) and isinstance(s.op, (ast.Add, ast.Sub)) \
+                    and "OptInt" not in (cur.ty, rhs.ty):
+                x, y, ty = unify(cur, rhs)
+                self.assign(s.target, Num(f"({x} {'+' if isinstance(s.op, ast.Add) else '-'} {y})", ty), env)
+            else:
+                self.assign(s.target, Opaque("augmented assignment"), env)
+            return self.run(rest, env, target)
+        if isinstance(s, ast.If):
+            return self.branch(s.test, env, lambda e: self.run(s.body + rest, e, target),
+                               lambda e: self.run(s.orelse + rest, e, target))
+        if isinstance(s, ast.Try) and not s.finalbody:
+            # the protected statements cannot raise in the understood subset: body, then `else`
+            return self.run(s.body + s.orelse + rest, env, target)
+        raise Unsupported(f"statement {type(s).__name__}: {ast.unparse(s)[:60]}")
+
+    def assign(self, t: ast.expr, v, env: dict) -> None:  # type: ignore[no-untyped-def]
+        if isinstance(t, ast.Name):
+            env[t.id] = v
+        elif isinstance(t, ast.Tuple):
+            items = v.items if isinstance(v, Tup) and len(v.items) == len(t.elts) else [Opaque("unpacked")] * len(t.elts)
+            for e, x in zip(t.elts, items):
+                self.assign(e, x, env)
+        elif isinstance(t, ast.Attribute):
+            base = self.ev(t.value, env)
+            if isinstance(base, Obj):
+                env[f"{base.path}.{t.attr}"] = v
+        # subscripts etc.: not tracked
+
+
+def need_int(v, what: str) -> str:  # type: ignore[no-untyped-def]
+    if isinstance(v, Num) and v.ty in ("Int", "Nat"):
+        return cast(v.term, v.ty, "Int")
+    raise Unsupported(f"{what}: not an integer/time value ({type(v).__name__} {getattr(v, 'why', getattr(v, 'term', ''))})")
+
+
+# ------------------------------------------------------------------------------------------------ pieces
+CONFIG_LEAVES = {
+    "self._config.resampling_period": Num("resamplingPeriod", "Int"),
+    "self._config.max_data_age_in_periods": Num("maxAge", "Rat"),
+    "self._config.max_buffer_len": Num("maxBufferLen", "Nat"),
+    "self._config.warn_buffer_len": Num("warnBufferLen", "Nat"),
+}
+HELPER_LEAVES = {
+    **CONFIG_LEAVES,
+    "self._source_properties.sampling_period": Num("samplingPeriod", "OptInt"),
+    "self._source_properties.sampling_start": Num("samplingStart", "OptInt"),
+    "self._source_properties.received_samples": Num("received", "Nat"),
+    "len(self._buffer)": Num("bufLen", "Nat"),
+    "self._buffer.maxlen": Num("maxlen", "Nat"),
+}
+
+
+def body_of(fn) -> list[ast.stmt]:  # type: ignore[no-untyped-def]
+    return strip_doc(fn.body)
+
+
+def calc_window_end(res: ast.ClassDef) -> str:
+    fn = find_method(res, "_calculate_window_end")
+    sym = Sym({"self._config.resampling_period": Num("period", "Int"), "self._config.align_to": Num("align_to", "OptInt"),
+               "<now>": Num("now", "Int")}, {})
+
+    def target(s: ast.stmt, env: dict):  # type: ignore[no-untyped-def]
+        if isinstance(s, ast.Return):
+            if s.value is None:
+                raise Unsupported("bare return in _calculate_window_end")
+            v = sym.ev(s.value, env)
+            if not (isinstance(v, Tup) and len(v.items) == 2):
+                raise Unsupported("_calculate_window_end does not return a pair")
+            return Tup([Num(need_int(x, "window end / start delay"), "Int") for x in v.items])
+        return None
+
+    r = sym.run(body_of(fn), {}, target)
+    if not isinstance(r, Tup):
+        raise Unsupported("_calculate_window_end: no returned pair")
+    return ("/-- `Resampler._calculate_window_end` with `datetime.now()` as the parameter `now`: "
+            "(window end, timer start delay). -/\n"
+            "def calculateWindowEnd (now period : Int) (align_to : Option Int) : Int × Int :=\n"
+            f"  ({r.items[0].term},\n   {r.items[1].term})")
+
+
+def timer_hack(res: ast.ClassDef) -> str:
+    init = find_method(res, "__init__")
+    if [a.arg for a in init.args.args] != ["self", "config"]:
+        raise Unsupported("Resampler.__init__ signature")
+    sym = Sym({"self._config.resampling_period": Num("period", "Int"), "<loop-time>": Num("loopNow", "Int")}, {},
+              calls={"self._calculate_window_end()": Tup([Num("windowEnd0", "Int"), Num("startDelay", "Int")])})
+    timer_ok = []
+
+    def target(s: ast.stmt, env: dict):  # type: ignore[no-untyped-def]
+        for n in ast.walk(s):
+            if isinstance(n, ast.Call) and ast.unparse(n.func) == "Timer":
+                a0 = sym.ev(n.args[0], env) if n.args else None
+                timer_ok.append(len(n.args) == 2 and isinstance(a0, Num) and a0.term == "period"
+                                and ast.unparse(n.args[1]) == "TriggerAllMissed()" and not n.keywords)
+        if isinstance(s, ast.Assign) and any(ast.unparse(t) == "self._timer._next_tick_time" for t in s.targets):
+            return Num(need_int(sym.ev(s.value, env), "first tick time"), "Int")
+        if isinstance(s, (ast.Assign, ast.AnnAssign)) and ast.unparse(s.targets[0] if isinstance(s, ast.Assign) else s.target) == "self._window_end":
+            v = sym.ev(s.value, env)
+            if not (isinstance(v, Num) and v.term == "windowEnd0"):
+                raise Unsupported("self._window_end is not initialised with the calculated window end")
+        return None
+
+    r = sym.run(body_of(init), {"config": Obj("self._config")}, target)
+    if not isinstance(r, Num):
+        raise Unsupported("assignment to self._timer._next_tick_time not found")
+    if timer_ok != [True]:
+        raise Unsupported("Timer(<resampling period>, TriggerAllMissed()) not found")
+    return ("/-- The hand-aligned `Timer._next_tick_time` of `Resampler.__init__` (loop clock, µs). -/\n"
+            f"def firstTickTime (loopNow period startDelay : Int) : Int :=\n  {r.term}")
+
+
+def resample_loop(res: ast.ClassDef) -> str:
+    fn = find_method(res, "resample")
+    sym = Sym({"self._config.resampling_period": Num("period", "Int"), "self._window_end": Num("windowEnd", "Int")}, {})
+    stmts = body_of(fn)
+    li = next((i for i, s in enumerate(stmts) if isinstance(s, ast.AsyncFor)), None)
+    if li is None or ast.unparse(stmts[li].iter) != "self._timer":  # type: ignore[attr-defined]
+        raise Unsupported("`async for … in self._timer` not found in resample()")
+    # locals defined before the loop (hoisted `period = …`)
+    env: dict = {}
+    for s in stmts[:li]:
+        if isinstance(s, ast.Assign) and len(s.targets) == 1 and isinstance(s.targets[0], ast.Name):
+            env[s.targets[0].id] = sym.ev(s.value, env)
+    body = stmts[li].body  # type: ignore[attr-defined]
+    gather_idx = None
+    for i, s in enumerate(body):
+        for n in ast.walk(s):
+            if isinstance(n, ast.Await) and isinstance(n.value, ast.Call) and ast.unparse(n.value.func) == "asyncio.gather":
+                gather_idx, gather_call = i, n.value
+    if gather_idx is None:
+        raise Unsupported("await asyncio.gather(…) not found in resample()")
+    # what is gathered: `<helper>.resample(self._window_end)` for each registered series
+    if not any(isinstance(n, ast.Call) and isinstance(n.func, ast.Attribute) and n.func.attr == "resample"
+               and len(n.args) == 1 and ast.unparse(n.args[0]) == "self._window_end"
+               for s in body[:gather_idx + 1] for n in ast.walk(s)):
+        raise Unsupported("gathered calls are not `.resample(self._window_end)`")
+    if {k.arg: ast.unparse(k.value) for k in gather_call.keywords}.get("return_exceptions") != "True":
+        raise Unsupported("gather without return_exceptions=True")
+    live_after = any(ast.unparse(n) == "self._resamplers" for s in body[gather_idx + 1:] for n in ast.walk(s))
+    if not any(ast.unparse(n) == "self._resamplers" for s in body[:gather_idx + 1] for n in ast.walk(s)):
+        raise Unsupported("resample() never reads self._resamplers")
+    adv = [(i, s) for i, s in enumerate(body) if isinstance(s, ast.AugAssign) and ast.unparse(s.target) == "self._window_end"]
+    other = [s for s in ast.walk(fn) if isinstance(s, (ast.Assign, ast.AnnAssign)) and
+             any(ast.unparse(t) == "self._window_end" for t in (s.targets if isinstance(s, ast.Assign) else [s.target]))]
+    nested = [s for s in ast.walk(fn) if isinstance(s, ast.AugAssign) and ast.unparse(s.target) == "self._window_end"]
+    if len(adv) != 1 or len(nested) != 1 or other or adv[0][0] < gather_idx:
+        raise Unsupported("expected exactly one unconditional `self._window_end += …` after the gather")
+    raise_idx = [i for i, st in enumerate(body) if isinstance(st, ast.If) and
+                 any(isinstance(n, ast.Raise) and n.exc is not None and "ResamplingError" in ast.unparse(n.exc)
+                     for n in ast.walk(st))]
+    if len(raise_idx) != 1 or raise_idx[0] < gather_idx:
+        raise Unsupported("expected exactly one `if exceptions: raise ResamplingError(…)` after the gather")
+    s = adv[0][1]
+    if not isinstance(s.op, (ast.Add, ast.Sub)):
+        raise Unsupported("window advance operator")
+    t = need_int(sym.ev(s.value, env), "window advance")
+    symb = "+" if isinstance(s.op, ast.Add) else "-"
+    return (f"/-- `self._window_end {symb}= …` after every gather. -/\n"
+            f"def advanceWindowEnd (windowEnd period : Int) : Int :=\n  windowEnd {symb} {t}\n\n"
+            "/-- `true`: after the gather `resample()` only uses a snapshot of the series taken before it;\n"
+            "`false`: it reads the live `self._resamplers` again (series added/removed in flight are mis-indexed). -/\n"
+            f"def gatherOverSnapshot : Bool := {'false' if live_after else 'true'}\n\n"
+            "/-- `true`: the window end is advanced before the errors of the tick are raised (a tick that ends with a\n"
+            "`ResamplingError` still consumes its window); `false`: only error-free ticks advance it. -/\n"
+            f"def advanceOnError : Bool := {'true' if adv[0][0] < raise_idx[0] else 'false'}")
+
+
+def helper_parts(hel: ast.ClassDef) -> str:
+    out = []
+    # --- _update_source_sample_period(now): when is the estimate NOT taken, and what is stored
+    fn = find_method(hel, "_update_source_sample_period")
+    if [a.arg for a in fn.args.args] != ["self", "now"]:
+        raise Unsupported("_update_source_sample_period signature")
+    sym = Sym(dict(HELPER_LEAVES), {})
+    stored: list = []
+
+    def target_guard(s: ast.stmt, env: dict):  # type: ignore[no-untyped-def]
+        if isinstance(s, ast.Return):
+            v = sym.ev(s.value, env) if s.value is not None else None
+            if not (isinstance(v, Num) and v.term in ("true", "false")):
+                raise Unsupported("_update_source_sample_period returns something else than True/False")
+            return Num("true" if v.term == "false" else "false", "Bool")  # skipped = returned False
+        if isinstance(s, ast.Assign):
+            for t in s.targets:
+                tv = sym.ev(t.value, env) if isinstance(t, ast.Attribute) else None
+                if isinstance(t, ast.Attribute) and isinstance(tv, Obj) and f"{tv.path}.{t.attr}" == "self._source_properties.sampling_period":
+                    stored.append(sym.ev(s.value, env))
+        return None
+
+    guard = sym.run(body_of(fn), {"now": Num("now", "Int")}, target_guard)
+    if not (isinstance(guard, Num) and guard.ty == "Bool"):
+        raise Unsupported("guard of _update_source_sample_period not understood")
+    if not stored or not all(isinstance(v, Est) for v in stored) or len({v.floor for v in stored}) != 1:
+        raise Unsupported("shape of the input-period estimate")
+    out.append("/-- `true` = `_update_source_sample_period(now)` returns False without estimating the input period. -/\n"
+               "def skipPeriodUpdate (samplingPeriod samplingStart : Option Int) (received : Nat) (resamplingPeriod : Int)\n"
+               "    (maxAge : Rat) (bufLen maxlen : Nat) (now : Int) : Bool :=\n  " + guard.term)
+    out.append("/-- Lower clamp (µs) applied to the estimated input period (0: the estimate may round down to zero). -/\n"
+               f"def minInputPeriodEstimate : Int := {stored[0].floor}")
+
+    # --- _update_buffer_len: the maxlen the deque is rebuilt with
+    fn = find_method(hel, "_update_buffer_len")
+    leaves = dict(HELPER_LEAVES)
+    leaves["self._source_properties.sampling_period"] = Num("inputPeriod", "Int")  # asserted not None by the function
+    sym = Sym(leaves, {})
+
+    def target_len(s: ast.stmt, env: dict):  # type: ignore[no-untyped-def]
+        if isinstance(s, ast.Assign) and any(ast.unparse(t) == "self._buffer" for t in s.targets):
+            c = s.value
+            if not (isinstance(c, ast.Call) and ast.unparse(c.func) == "deque" and len(c.args) == 1
+                    and isinstance(sym.ev(c.args[0], env), Obj) and sym.ev(c.args[0], env).path == "self._buffer"
+                    and [k.arg for k in c.keywords] == ["maxlen"]):
+                raise Unsupported("the buffer is not rebuilt with deque(self._buffer, maxlen=…)")
+            return Num(need_int(sym.ev(c.keywords[0].value, env), "new buffer length"), "Int")
+        return None
+
+    r = sym.run(body_of(fn), {}, target_len)
+    if not isinstance(r, Num):
+        raise Unsupported("deque rebuild of _update_buffer_len not found")
+    out.append("/-- The `maxlen` `_update_buffer_len` rebuilds the deque with (clamps included; exact rationals for the\n"
+               "float `math.ceil`; `inputPeriod` = the estimated input period). -/\n"
+               "def newBufferLenOf (inputPeriod resamplingPeriod : Int) (maxAge : Rat) (maxBufferLen warnBufferLen : Nat) : Int :=\n  "
+               + r.term)
+
+    # --- resample(timestamp): the slice handed to the resampling function
+    fn = find_method(hel, "resample")
+    if [a.arg for a in fn.args.args] != ["self", "timestamp"]:
+        raise Unsupported("_ResamplingHelper.resample signature")
+    body = body_of(fn)
+    # the update happens first: a statement `if self._update_source_sample_period(timestamp): self._update_buffer_len()`
+    # before anything reads the buffer or the source properties
+    first = body[0] if body else None
+    if not (isinstance(first, ast.If) and ast.unparse(first.test) == "self._update_source_sample_period(timestamp)"
+            and len(first.body) == 1 and ast.unparse(first.body[0]) == "self._update_buffer_len()" and not first.orelse):
+        lead = [s for s in body if not (isinstance(s, ast.Assign) and ast.unparse(s.value) in ("self._config", "self._source_properties"))]
+        first = lead[0] if lead else None
+        if not (isinstance(first, ast.If) and ast.unparse(first.test) == "self._update_source_sample_period(timestamp)"
+                and len(first.body) == 1 and ast.unparse(first.body[0]) == "self._update_buffer_len()" and not first.orelse):
+            raise Unsupported("resample() does not start with the period/buffer update")
+    rest = [s for s in body if s is not first]
+    sym = Sym(dict(HELPER_LEAVES), {})
+    found: dict = {}
+
+    def target_slice(s: ast.stmt, env: dict):  # type: ignore[no-untyped-def]
+        for n in ast.walk(s):
+            if isinstance(n, ast.Call) and isinstance(n.func, ast.Attribute) and n.func.attr == "resampling_function":
+                base = sym.ev(n.func.value, env)
+                a = [sym.ev(x, env) for x in n.args]
+                if not (isinstance(base, Obj) and base.path == "self._config" and len(a) == 3 and isinstance(a[0], Slice)
+                        and isinstance(a[1], Obj) and a[1].path == "self._config"
+                        and isinstance(a[2], Obj) and a[2].path == "self._source_properties"):
+                    raise Unsupported("call of the resampling function changed shape")
+                if not (isinstance(a[0].lo, Bisect) and isinstance(a[0].hi, Bisect)):
+                    raise Unsupported("the slice is not bounded by two bisections")
+                return Tup([a[0].lo.key, a[0].hi.key])
+        return None
+
+    r = sym.run(rest, {"timestamp": Num("timestamp", "Int")}, target_slice)
+    if not isinstance(r, Tup):
+        raise Unsupported("window computation of _ResamplingHelper.resample not understood")
+    # every return hands out `Sample(timestamp, …)`
+    for n in ast.walk(fn):
+        if isinstance(n, ast.Return):
+            if not (isinstance(n.value, ast.Call) and ast.unparse(n.value.func) == "Sample" and len(n.value.args) == 2
+                    and ast.unparse(n.value.args[0]) == "timestamp"):
+                raise Unsupported("resample() returns something else than Sample(timestamp, …)")
+    sig = "(timestamp resamplingPeriod : Int) (samplingPeriod : Option Int) (maxAge : Rat) : Int"
+    out.append("/-- `islice(buffer, bisect_right(buffer, <this>), …)`: the older edge of the relevance window. -/\n"
+               f"def relevanceLowKey {sig} :=\n  {need_int(r.items[0], 'low key')}")
+    out.append("/-- `islice(buffer, …, bisect_right(buffer, <this>))`: the newer edge of the relevance window. -/\n"
+               f"def relevanceHighKey {sig} :=\n  {need_int(r.items[1], 'high key')}")
+    return "\n\n".join(out)
+
+
 def add_sample_shape(hel: ast.ClassDef) -> None:
     fn = find_method(hel, "add_sample")
-    src = [ast.unparse(s) for s in strip_doc(fn.body)]
-    want = ["self._buffer.append(sample)",
-            "if self._source_properties.sampling_start is None:\n    self._source_properties.sampling_start = sample.timestamp",
-            "self._source_properties.received_samples += 1"]
-    if sorted(src) != sorted(want):
+    if [a.arg for a in fn.args.args] != ["self", "sample"]:
+        raise Unsupported("add_sample signature")
+    src = sorted(ast.unparse(s) for s in body_of(fn))
+    want = sorted(["self._buffer.append(sample)",
+                   "if self._source_properties.sampling_start is None:\n    self._source_properties.sampling_start = sample.timestamp",
+                   "self._source_properties.received_samples += 1"])
+    if src != want:
         raise Unsupported("add_sample changed shape")
     init = find_method(hel, "__init__")
     if "deque(maxlen=config.initial_buffer_len)" not in ast.unparse(init):
@@ -639,21 +865,33 @@ def add_sample_shape(hel: ast.ClassDef) -> None:
 
 def receive_filter(stream: ast.ClassDef) -> str:
     fn = find_method(stream, "_receive_samples")
-    loop = next((s for s in fn.body if isinstance(s, ast.AsyncFor)), None)
-    if loop is None or len(loop.body) != 1 or not isinstance(loop.body[0], ast.If) or loop.body[0].orelse:
+    loop = next((s for s in body_of(fn) if isinstance(s, ast.AsyncFor)), None)
+    if loop is None or not isinstance(loop.target, ast.Name) or ast.unparse(loop.iter) != "self._source":
         raise Unsupported("_receive_samples loop shape")
-    iff = loop.body[0]
-    if [ast.unparse(s) for s in iff.body] != ["self._helper.add_sample(sample)"]:
+    v = loop.target.id
+    finite = Num("((!isNaN) && (!isInf))", "Bool")
+    sym = Sym({f"{v}.value": Num("<isNone:isNone>", "Bool"), f"{v}.value.isnan()": Num("isNaN", "Bool"),
+               f"{v}.value.isinf()": Num("isInf", "Bool"),
+               f"math.isnan({v}.value.base_value)": Num("isNaN", "Bool"),
+               f"math.isinf({v}.value.base_value)": Num("isInf", "Bool"),
+               f"math.isfinite({v}.value.base_value)": finite}, {})
+    added: list[bool] = []
+
+    def target(s: ast.stmt, env: dict):  # type: ignore[no-untyped-def]
+        if isinstance(s, ast.Expr) and ast.unparse(s.value) == f"self._helper.add_sample({v})":
+            added.append(True)
+            return Num("true", "Bool")
+        if isinstance(s, ast.Continue):
+            return Num("false", "Bool")
+        return None
+
+    # falling off the end of the body = not added
+    r = sym.run(list(loop.body) + [ast.Continue()], {v: Obj(v)}, target)
+    if not added or not isinstance(r, Num) or r.ty != "Bool":
         raise Unsupported("_receive_samples does not add the accepted sample")
-    finite = "((!isNaN) && (!isInf))"
-    tr = Tr({"sample.value is None": ("isNone", "Bool"), "sample.value is not None": ("(!isNone)", "Bool"),
-             "sample.value.isnan()": ("isNaN", "Bool"),
-             "sample.value.isinf()": ("isInf", "Bool"),
-             "math.isnan(sample.value.base_value)": ("isNaN", "Bool"),
-             "math.isinf(sample.value.base_value)": ("isInf", "Bool"),
-             "math.isfinite(sample.value.base_value)": (finite, "Bool")})
-    return ("/-- The filter of `_StreamingHelper._receive_samples` (`isInf`: the value is +inf or -inf). -/\n"
-            "def acceptsSample (isNone isNaN isInf : Bool) : Bool :=\n  " + tr.cond(iff.test))
+    return ("/-- The condition under which `_StreamingHelper._receive_samples` hands a sample to the helper\n"
+            "(`isInf`: the value is +inf or -inf). -/\n"
+            "def acceptsSample (isNone isNaN isInf : Bool) : Bool :=\n  " + r.term)
 
 
 def generate(repo: pathlib.Path) -> str:
@@ -665,4 +903,5 @@ def generate(repo: pathlib.Path) -> str:
     add_sample_shape(hel)
     parts = [constants(tree), calc_window_end(res), timer_hack(res), resample_loop(res), helper_parts(hel),
              receive_filter(stream)]
-    return "set_option linter.unusedVariables false\n\nnamespace Extracted.Resampling\n\n" + PRELUDE + "\n" + "\n\n".join(parts) + "\n\nend Extracted.Resampling\n"
+    return ("set_option linter.unusedVariables false\n\nnamespace Extracted.Resampling\n\n" + PRELUDE + "\n"
+            + "\n\n".join(parts) + "\n\nend Extracted.Resampling\n")
